@@ -37,7 +37,7 @@ META = {
     'components_stub': ['threading.Thread / Lock / Event (simulated, virtual time)', 'storage latency and failures (spy)', 'producers (generated workloads)'],
     'budgets': {'quick': {'seconds': 40}, 'thorough': {'seconds': 600}},
     'required_probes': {'thorough': ['lock_contended', 'flush_while_producer_mid_append', 'storage_op_failed', 'storage_slow', 'final_flush_had_work',
-                                     'close_while_producer_running', 'recorder_workload', 'three_producers']},
+                                     'close_while_producer_running', 'recorder_workload', 'three_producers', 'close_timeout_shorter_than_flush_interval']},
 }
 
 
@@ -93,6 +93,32 @@ class Ctx(object):
         self.applied.setdefault(rid, []).append((op, key))
 
 
+class TimeProxy(object):
+    def __init__(self, sim):
+        self.sim = sim
+
+    def sleep(self, seconds):
+        self.sim.sleep(seconds)
+
+    def time(self):
+        return self.sim.time()
+
+    def monotonic(self):
+        return self.sim.time()
+
+
+def sim_names(sim, Thread, Lock, Event):
+    """Every name through which the async module could reach threads or time is bound to the simulator (the names
+    `sleep`, `time` and `threading` do not exist in the module today; a change that starts using them must not
+    escape the virtual clock)."""
+    class ThreadingProxy(object):
+        pass
+    tp = ThreadingProxy()
+    tp.Thread, tp.Lock, tp.Event, tp.RLock = Thread, Lock, Event, Lock
+    return [(AM.__name__, 'Thread', Thread), (AM.__name__, 'Lock', Lock), (AM.__name__, 'Event', Event),
+            (AM.__name__, 'sleep', sim.sleep), (AM.__name__, 'time', TimeProxy(sim)), (AM.__name__, 'threading', tp)]
+
+
 def gen_workload(tape, run, nprod):
     """Per producer: list of recordings, each a list of requested operations."""
     prods = []
@@ -130,9 +156,10 @@ def _run(tape):
     preempt = tape.choice([0.0, 0.02, 0.1, 0.4])
     workload_kind = tape.weighted([(4, 'direct'), (1, 'recorder')])
     nprod = 1 + tape.draw(3)
-    flush_interval = tape.choice([0.1, 0.05, 1.0])
+    flush_interval = tape.choice([0.1, 0.05, 1.0, 4.0])
+    short_close = tape.draw(4) == 3      # close timeout shorter than the flush interval (storage itself is then instant)
     close_early = tape.draw(6) == 5
-    slow_p = tape.choice([0.0, 0.0, 0.3])
+    slow_p = 0.0 if short_close else tape.choice([0.0, 0.0, 0.3])
     fail_p = tape.choice([0.0, 0.0, 0.15]) if place_mode != 2 else 0.0
     if workload_kind == 'recorder':
         run.probe('recorder_workload')
@@ -141,8 +168,11 @@ def _run(tape):
     prods = gen_workload(tape, run, nprod)
     if nprod == 3:
         run.probe('three_producers')
+    if short_close and flush_interval > 0.5:
+        run.probe('close_timeout_shorter_than_flush_interval')
     sim = Sim(tape, run, preempt_p=preempt if place_mode == 0 else 0.0, prim_p=(max(preempt, 0.1) if place_mode == 0 else 0.0),
-              target_files=[TARGET], placements={place_idx: place_to} if place_mode == 1 else None, max_steps=80000)
+              target_files=[TARGET], placements={place_idx: place_to} if place_mode == 1 else None, max_steps=80000,
+              timeskip=0.0 if short_close else tape.choice([0.0, 0.3, 0.3]))   # a descheduled flusher may legitimately outlast a short close timeout
     ctx = Ctx(run, sim, tape)
     all_recs = [r for p in prods for r in p]
     total_ops = [(r['ordinal'], n) for r in all_recs for n in range(len(r['ops']) + (1 if r['end'] == 'save' else 0))]
@@ -167,9 +197,12 @@ def _run(tape):
     spyrec.HOOK['fn'] = hook
 
     def timed(fn, what):
+        # callers never wait for the wrapped storage: the invariant is checked where it could break (a wrapped call made
+        # while the buffer lock is held, see Ctx.wrapped_op); with a pre-empted thread staying descheduled for a while
+        # elapsed virtual time alone says nothing.  Without time skips a producer call takes no virtual time at all.
         t0 = sim.now
         out = fn()
-        if sim.now != t0:
+        if sim.now != t0 and not sim.timeskip:
             run.violate('producers_never_wait_for_storage', 'producer-call-took-time', 'producer call %s took %.3f s of simulated time' % (what, sim.now - t0))
         return out
 
@@ -223,9 +256,11 @@ def _run(tape):
         for t in tasks:
             sim.join(t)
 
-    with seams.rebind([(AM.__name__, 'Thread', Thread), (AM.__name__, 'Lock', Lock), (AM.__name__, 'Event', Event)]):
+    with seams.rebind(sim_names(sim, Thread, Lock, Event)):
         wrapped = SpyWrapped(ctx)
-        cassette = AM.AsyncRecordOnlyTapeCassette(wrapped, flush_interval=flush_interval, timeout_on_close=tape.choice([10, 60]) + 2 * sum(ctx.slow.values()))   # assumption: storage delay stays below the close timeout
+        # assumption: storage delay stays below the close timeout
+        cassette = AM.AsyncRecordOnlyTapeCassette(wrapped, flush_interval=flush_interval,
+                                                  timeout_on_close=0.5 if short_close else tape.choice([10, 60]) + 2 * sum(ctx.slow.values()))
         ctx.cassette = cassette
         try:
             sim.run_main(main)
@@ -307,7 +342,7 @@ def recorder_workload(run, tape, nprod, flush_interval, preempt, placements):
     Thread, Lock, Event = bound_primitives(sim)
     spyrec.HOOK['fn'] = lambda op, rid, key, value: ctx.applied.setdefault(rid, []).append((op, key))
     outs = {}
-    with seams.rebind([(AM.__name__, 'Thread', Thread), (AM.__name__, 'Lock', Lock), (AM.__name__, 'Event', Event)]):
+    with seams.rebind(sim_names(sim, Thread, Lock, Event)):
         wrapped = SpyWrapped(ctx)
         cassette = AM.AsyncRecordOnlyTapeCassette(wrapped, flush_interval=flush_interval)
         ctx.cassette = cassette
@@ -362,10 +397,10 @@ def run_index(i, seed, tier, emit):
     dry = safe_run_tape(mod, t)
     emit(dry, t)
     n_points = dry.config.get('line_points', 0)
-    cap = 120 if tier == 'quick' else 500
+    cap = 80 if tier == 'quick' else 400
     stride = max(1, n_points // cap)
     for idx in range(0, n_points, stride):
-        for to in (0, 1):
+        for to in (0, 1, 2, 3):
             tt = Tape(seed, prefix=[1, idx, to, 0, 0, 0])
             emit(safe_run_tape(mod, tt), tt)
     for k in range(dry.config.get('ops', 0)):
